@@ -386,6 +386,41 @@ def check_graph(desc: dict[str, Any], col: common.Collector, apps: list[Any], tr
             col.violation("C13:single-change-alters-node-count",
                           f"{len(walk_nobody)} nodes before, {len(after)} after replacing one "
                           "node", wit)
+    # (3c) a transformation that makes one node EQUAL to another existing node: the two must
+    # become one object whichever of them the mapper meets first
+    if isinstance(g, pt.DictOfNamedArrays):
+        rng2 = common.rng_for(desc["seed"], "merge")
+        cands2 = [n for n in cands if type(n).__name__ != "DataWrapper" and n.dtype.kind in "iufc"
+                  and all(isinstance(d_, int) for d_ in n.shape)]
+        for y_ in rng2.sample(cands2, min(3, len(cands2))):
+            first = rng2.random() < 0.6
+            swap = rng2.random() < 0.5
+            wit = {"desc": desc, "application": "map_and_copy(untag-to-equal)",
+                   "chosen": type(y_).__name__, "pair_first": first}
+            try:
+                x_ = y_.tagged(VTag(4712))
+                pair = (x_ + y_) if swap else (y_ + x_)
+                data = dict(g._data)
+                data = {"vf_pair": pair, **data} if first else {**data, "vf_pair": pair}
+                g2 = pt.make_dict_of_named_arrays(data)
+                if reflect.duplicate_groups(g2, reflect.MAPPER_INVISIBLE) > 0:
+                    continue
+
+                def fn3(x: Any) -> Any:
+                    if isinstance(x, pt.Array) and VTag(4712) in x.tags:
+                        return x.without_tags(VTag(4712))
+                    return x
+                res3 = tr.map_and_copy(g2, fn3)
+            except Exception as e:  # noqa: BLE001
+                col.histo("application_raises", f"map_and_copy(untag):{type(e).__name__}:"
+                          f"{common.norm_msg(str(e), 40)}")
+                continue
+            col.count("mon.merge_oracle")
+            if reflect.duplicate_groups(res3, reflect.MAPPER_INVISIBLE) > 0:
+                col.violation("C13:equal-results-not-unified:map_and_copy(untag)",
+                              "a node rewritten to something equal to an untouched node of the "
+                              "same graph stays a second object (a duplicate-free input gives "
+                              "an output with duplicates; depends on which one is met first)", wit)
     # (4) collision reporting and deduplicate on graphs WITH duplicates
     victims = [n for n in walk_nobody if indeg.get(id(n), 0) >= 1
                and isinstance(n, pt.Array) and not isinstance(n, (pt.NamedArray,))
